@@ -10,6 +10,9 @@ evaluator (plain Python semantics + SQL NULL), wherever they occur in a tree:
   ['tostr', e]                         str(e) of an int
   ['tcmp', op, [a1, a2], [b1, b2]]     (a1, a2) op (b1, b2)      tuple comparison of non-nullable operands
   ['tsubin', neg, [e1, e2], Ent, ivar, [i1, i2], cond]           (e1, e2) [not] in ((i1, i2) for ivar in Ent if cond)
+and ['and', a, b] does not evaluate b when a is False (Python's short circuit; FALSE AND x is FALSE in SQL), which makes guarded
+indexing  len(e) > k and e[i] ...  judgeable.  qgen's own kinds concat, slice, index, upper/lower/strip, startswith/endswith/
+contains (with non-constant patterns) and len are generated more densely here than in qgen.queries().
 Boolean attributes f / of (vlib/c02_lib.build_schema) are ordinary ['attr', var, 'f'] nodes.
 """
 from hypothesis import strategies as st
@@ -81,6 +84,13 @@ def install():
                 if a == b:
                     found = True
             return (not found) if e[1] else found
+        if k == 'and':
+            # Python short-circuits (x and y is x when x is falsy) and SQL's FALSE AND <anything> is FALSE: the right operand
+            # is not evaluated (it may be unspecified for this row, e.g. a guarded index)
+            a = cond(e[1], env)
+            if a is False:
+                return False
+            return qgen.k_and(a, cond(e[2], env))
         return _cond(e, env)
 
     qgen.render, qgen.ev, qgen.cond = render, ev, cond
@@ -89,7 +99,7 @@ def install():
 install()
 
 ASCII_STRS = [s for s in qgen.STRS if all(ord(c) < 128 for c in s)]
-CHARS = ['a', 'b', ' ', 'ab', 'ba', 'a ', 'abc', "'", '%']
+CHARS = ['a', 'b', ' ', 'c', 'y', 'x', '%', "'", 'a', 'b', 'ab', 'ba', 'a b']
 
 
 # ---------------------------------------------------------------------------------------------------------------------
@@ -172,26 +182,60 @@ def nonnull_str(var, ent):
                      st.sampled_from([s for s in ASCII_STRS]).map(lambda v: ['param', 'ps_%d' % qgen.STRS.index(v), v]))
 
 
+def str_leaves(var, ent):
+    names = [n for n, t in qgen.ENT_ATTRS[ent].items() if t == 'str']
+    return st.one_of(st.sampled_from(names).map(lambda n: ['attr', var, n]),
+                     st.sampled_from(names).map(lambda n: ['attr', var, n]),
+                     st.sampled_from(ASCII_STRS).map(lambda v: ['const', v]),
+                     st.sampled_from(ASCII_STRS).map(lambda v: ['param', 'ps_%d' % qgen.STRS.index(v), v]))
+
+
+def _slice(t):
+    e, a, b = t
+    if b == -1 and a in (None, 0):
+        b = -2          # (start omitted/0, stop -1) is the open finding C25-stop-minus-one
+    return ['slice', e, a, b]
+
+
+def _guard(e, i):
+    """len(e) > k  <=>  e[i] is in range"""
+    return ['cmp', '>', ['len', e], ['const', i if i >= 0 else -i - 1]]
+
+
 def extra_values(var, ent, typ):
     """value expressions with a dialect-specific translation"""
     ints = qgen.value_exprs(var, ent, 'int', 1, False)
     strs = qgen.value_exprs(var, ent, 'str', 1, False)
+    leaf = str_leaves(var, ent)
     divisor = st.one_of(st.sampled_from([1, 2, 3, 7]).map(lambda v: ['const', v]),
                         st.sampled_from([1, 2, 3, 7]).map(lambda v: ['param', 'pi_%d' % v, v]))
     conds = qgen.conditions(var, ent, 0, inner=True)
     if typ == 'int':
         opts = [st.tuples(st.sampled_from(['//', '%']), ints, divisor).map(lambda t: ['bin', t[0], ['abs', t[1]], t[2]]),
-                st.tuples(conds, ints, ints).map(lambda t: ['ifexp', t[0], t[1], t[2]])]
+                st.tuples(conds, ints, ints).map(lambda t: ['ifexp', t[0], t[1], t[2]]),
+                st.tuples(leaf, leaf).map(lambda t: ['len', ['bin', '+', t[0], t[1]]])]
         if ent in ('A', 'B'):
             opts.append(st.tuples(ints, bool_exprs(var, ent, 0)).map(lambda t: ['bin', '+', t[0], t[1]]))
             opts.append(st.tuples(bool_exprs(var, ent, 0), ints, ints).map(lambda t: ['ifexp', ['truth', t[0]], t[1], t[2]]))
         return st.one_of(*opts)
     if typ == 'str':
-        return st.one_of(
-            st.tuples(st.sampled_from(['strip', 'lstrip', 'rstrip']), strs, st.sampled_from(CHARS)).map(
+        concat = st.tuples(leaf, leaf).map(lambda t: ['bin', '+', t[0], t[1]])
+        base = st.one_of(leaf, leaf, concat)
+        bound_a = st.one_of(st.none(), st.integers(-3, 3))
+        bound_b = st.one_of(st.none(), st.integers(-3, 4))
+        kinds = {
+            'concat': st.one_of(concat, concat, st.tuples(leaf, leaf, leaf).map(lambda t: ['bin', '+', ['bin', '+', t[0], t[1]], t[2]])),
+            'stripc': st.tuples(st.sampled_from(['strip', 'lstrip', 'rstrip']), st.one_of(base, strs), st.sampled_from(CHARS)).map(
                 lambda t: ['stripc', t[0], t[1], t[2]]),
-            ints.map(lambda e: ['tostr', e]),
-            st.tuples(conds, strs, strs).map(lambda t: ['ifexp', t[0], t[1], t[2]]))
+            'tostr': ints.map(lambda e: ['tostr', e]),
+            'index': st.tuples(base, st.integers(-3, 2)).map(
+                lambda t: ['ifexp', _guard(t[0], t[1]), ['index', t[0], t[1]], ['const', '']]),
+            'slice': st.tuples(base, bound_a, bound_b).map(_slice),
+            'method': st.tuples(st.sampled_from(['upper', 'lower', 'strip', 'lstrip', 'rstrip']), base).map(lambda t: [t[0], t[1]]),
+            'ifexp': st.tuples(conds, strs, strs).map(lambda t: ['ifexp', t[0], t[1], t[2]]),
+        }
+        return st.sampled_from(['concat'] * 3 + ['stripc'] * 3 + ['index'] * 3 + ['slice'] * 3 + ['method', 'tostr', 'ifexp']).flatmap(
+            lambda k: kinds[k])
     return bool_exprs(var, ent, 1)
 
 
@@ -204,9 +248,19 @@ def extra_conditions(var, ent):
     ovar = 'o' + var
     pair = st.tuples(nonnull_int(var, ent), nonnull_str(var, ent)).map(list)
     opair = st.tuples(nonnull_int(ovar, other), nonnull_str(ovar, other)).map(list)
+    leaf = str_leaves(var, ent)
     atoms = [
         st.tuples(cmpop, extra_values(var, ent, 'int'), ints).map(lambda t: ['cmp', t[0], t[1], t[2]]),
         st.tuples(cmpop, extra_values(var, ent, 'str'), strs).map(lambda t: ['cmp', t[0], t[1], t[2]]),
+        st.tuples(cmpop, extra_values(var, ent, 'str'), leaf).map(lambda t: ['cmp', t[0], t[1], t[2]]),
+        # LIKE with a non-constant pattern: REPLACE / CONCAT chains in the dialect's own spelling
+        st.tuples(st.sampled_from(['startswith', 'endswith']), leaf, leaf).map(lambda t: [t[0], t[1], t[2]]),
+        st.tuples(st.booleans(), leaf, leaf).map(lambda t: ['contains', t[0], t[1], t[2]]),
+        # guarded indexing:  len(e) > k and e[i] op str
+        st.tuples(leaf, st.integers(-3, 2), cmpop, leaf).map(
+            lambda t: ['and', _guard(t[0], t[1]), ['cmp', t[2], ['index', t[0], t[1]], t[3]]]),
+        st.tuples(leaf, st.integers(-3, 2), cmpop, leaf).map(
+            lambda t: ['and', _guard(t[0], t[1]), ['cmp', t[2], ['index', t[0], t[1]], t[3]]]),
         st.tuples(cmpop, pair, pair).map(lambda t: ['tcmp', t[0], t[1], t[2]]),
         st.tuples(st.booleans(), pair, opair, st.one_of(st.none(), qgen.conditions(ovar, other, 0, inner=True))).map(
             lambda t: ['tsubin', t[0], t[1], other, ovar, t[2], t[3]]),
